@@ -144,10 +144,10 @@ async fn execute_command(command: Command, frame: &Frame, store: &Store) -> Resu
     let frame = frame.clone();
 
     #[cfg(xs_verif)]
-    crate::verif::expect_thread("cmd");
+    let verif_ticket = crate::verif::expect_thread("cmd");
     tokio::task::spawn_blocking(move || {
         #[cfg(xs_verif)]
-        let _verif_scope = crate::verif::thread_scope("cmd");
+        let _verif_scope = crate::verif::thread_scope("cmd", verif_ticket);
         #[cfg(xs_verif)]
         let (command, store, frame) = (command, store, frame);
         #[cfg(xs_verif)]
